@@ -39,7 +39,58 @@ func c37ConcCalls() []c37Call {
 	}
 }
 
+// c37SchedSelfTest: the explorer must find the lost update of a check-then-act toy over a hooked mutex,
+// must not report the correctly locked version, and must reproduce the failing schedule on replay.
+func c37SchedSelfTest(c *vk.Ctx) bool {
+	toy := func(atomicUpdate bool) func() ([]func(), func(synchook.Result) string) {
+		return func() ([]func(), func(synchook.Result) string) {
+			var mu synchook.Mutex
+			x := 0
+			body := func() {
+				mu.Lock()
+				v := x
+				if !atomicUpdate {
+					mu.Unlock()
+					mu.Lock()
+				}
+				x = v + 1
+				mu.Unlock()
+			}
+			return []func(){body, body}, func(synchook.Result) string {
+				if x != 2 {
+					return fmt.Sprintf("lost update: x=%d", x)
+				}
+				return ""
+			}
+		}
+	}
+	var bad [][]int
+	st, err := synchook.Explore(toy(false), -1, 10000, func(ch []int, _ []string, _ string) { bad = append(bad, ch) })
+	if err != nil || len(bad) == 0 {
+		c.ToolError(fmt.Sprintf("synchook self-test: seeded lost update not found (executions=%d err=%v)", st.Executions, err))
+		return false
+	}
+	for i := 0; i < 2; i++ {
+		if _, msg, err := synchook.Replay(toy(false), bad[0]); err != nil || msg == "" {
+			c.ToolError(fmt.Sprintf("synchook self-test: failing schedule %v did not reproduce on replay %d (msg=%q err=%v)", bad[0], i, msg, err))
+			return false
+		}
+	}
+	good := 0
+	st2, err := synchook.Explore(toy(true), -1, 10000, func([]int, []string, string) { good++ })
+	if err != nil || good != 0 || st2.Executions < 2 {
+		c.ToolError(fmt.Sprintf("synchook self-test: correctly locked toy reported %d failures in %d executions (err=%v)", good, st2.Executions, err))
+		return false
+	}
+	c.Extra("synchook_selftest", map[string]any{"lost_update_schedules": len(bad), "executions_buggy": st.Executions, "executions_correct": st2.Executions, "replayed_twice": true})
+	return true
+}
+
 func c37Concurrency(c *vk.Ctx) {
+	if !c37SchedSelfTest(c) {
+		return
+	}
+	synchook.LockOps.Store(0)
 	calls := c37ConcCalls()
 	alone := make([]string, len(calls))
 	for i, cl := range calls {
